@@ -28,9 +28,9 @@ and the mailbox capacity are universally quantified.
   `mailbox_full_drop_counterexample`, `batch_remainder_skipped_counterexample`,
   `send_after_bridge_exit_counterexample`; `sink_nothing_lost_partial` proves it while the process
   keeps running below the mailbox capacity and the back-pressure threshold.
-* `write_buffer_failed_flush_drops_counterexample` — the stand-alone `WriteBuffer::flush`
-  (write_buffer.rs) still takes the deltas before the `put` and drops them when it fails;
-  `write_buffer_failed_flush_keeps_repaired` for the suggested repair.
+* `write_buffer_failed_flush_drops_counterexample` — the pinned stand-alone `WriteBuffer::flush`
+  (write_buffer.rs) took the deltas before the `put` and dropped them when it failed (fixed defect,
+  ed7c4a2); `write_buffer_failed_flush_keeps_repaired` / `_current` for the repaired tree.
 -/
 namespace RedisVerif
 namespace C12
@@ -190,8 +190,8 @@ def C12_write_buffer_failed_flush_keeps (restore : Bool) : Prop :=
   ∀ (F : Oracle) (w : World) (b : WB),
     (wbFlushWith restore F w b).2.2 = some false → (wbFlushWith restore F w b).2.1.deltas = b.deltas
 
-/-- **known finding C12:write-buffer:failed-flush-drops-buffer**: two accepted updates, the `put`
-    fails: `flush` returns `Err` and `pending_count()` is 0 -/
+/-- **fixed defect C12:write-buffer:failed-flush-drops-buffer** (pinned variant; repaired by ed7c4a2): two
+    accepted updates, the `put` fails: `flush` returns `Err` and `pending_count()` is 0 -/
 theorem write_buffer_failed_flush_drops_counterexample : ¬ C12_write_buffer_failed_flush_keeps false := by
   intro h
   have := h (fun _ => .fail) (World.init []) { deltas := [c12Delta 97 1 5, c12Delta 98 2 6], bytes := 146, counter := 0 }
@@ -215,8 +215,13 @@ theorem write_buffer_failed_flush_keeps_repaired : C12_write_buffer_failed_flush
       | ok u => simp at h
       | err e => simp
 
-/-- the code that exists is the unrepaired variant (flip `StreamActor.wbRestores` with the fix) -/
+/-- the current tree is the repaired variant (`StreamActor.wbRestores = true` since ed7c4a2) -/
 theorem write_buffer_current : wbFlush = wbFlushWith wbRestores := rfl
+
+/-- … so the current `WriteBuffer::flush` keeps the accepted updates on every error -/
+theorem write_buffer_failed_flush_keeps_current (F : Oracle) (w : World) (b : WB)
+    (h : (wbFlush F w b).2.2 = some false) : (wbFlush F w b).2.1.deltas = b.deltas :=
+  write_buffer_failed_flush_keeps_repaired F w b h
 
 /-- an `Ok` flush of the WriteBuffer empties it and stores the segment under the counter name -/
 theorem write_buffer_ok_flush (restore : Bool) (F : Oracle) (w : World) (b : WB)
